@@ -1081,7 +1081,7 @@ C11_FUNCS = ["binary_search_interval", "check_for_value", "argsort_k", "find_pbe
 C06_FUNCS = C11_FUNCS + ["empty_crossover", "binomialGA", "one_point_crossover", "two_point_crossover", "uniform_crossover",
                          "uniform_proportional_crossover", "uniform_rank_crossover", "flip_mutation"]
 C07_FUNCS = C11_FUNCS + ["binomial", "best_1", "rand_1", "rand_to_best1", "current_to_best_1", "best_2", "rand_2",
-                         "bounds_control", "bounds_control_mean"]
+                         "bounds_control", "bounds_control_mean", "uniform", "current_to_pbest_1_archive_p_min"]
 
 
 if __name__ == "__main__":
